@@ -155,6 +155,19 @@ impl TryFrom<Command> for View {
     }
 }
 
+/// Parses a precision argument, i.e. a number of decimals to print.
+///
+/// The formatting machinery supports at most `u16::MAX` decimals and panics beyond that.
+pub(crate) fn parse_precision(s: &str) -> Result<usize, String> {
+    let precision = s.parse::<usize>().map_err(|e| e.to_string())?;
+
+    if precision <= usize::from(u16::MAX) {
+        Ok(precision)
+    } else {
+        Err(format!("precision cannot exceed {}", u16::MAX))
+    }
+}
+
 fn main() {
     let cli = Cli::parse();
 
